@@ -111,14 +111,14 @@ def brightest_pixel(img, threshold, **kwargs):
 
     if len(img.shape)==2:
         pxlValue = numpy.sort(img.flatten())[-nPxls]
-        img-=pxlValue
+        img = img - pxlValue
         img = img.clip(0, img.max())
 
     elif len(img.shape)==3:
         pxlValues = numpy.sort(
                         img.reshape(img.shape[0], img.shape[-1]*img.shape[-2])
                         )[:,-nPxls]
-        img[:]  = (img.T - pxlValues).T
+        img = (img.T - pxlValues).T
         img = img.clip(0, img.max(), out=img)
 
     return centre_of_gravity(img)
